@@ -169,18 +169,25 @@ def read_jsonl(path):
 def shard_cases(cases, nshards):
     shards = [[] for _ in range(nshards)]
     sizes = [0] * nshards
-    for c in sorted(cases, key=lambda c: -(len(c["lhs"]) + len(c["rhs"]))):
+    for c in sorted(cases, key=lambda c: -(len(c["lhs"]) + len(c["rhs"]) + len(c.get("vernac", "")))):
         i = sizes.index(min(sizes))
         shards[i].append(c)
-        sizes[i] += len(c["lhs"]) + len(c["rhs"]) + 50
+        sizes[i] += len(c["lhs"]) + len(c["rhs"]) + len(c.get("vernac", "")) + 50
     return [s for s in shards if s]
 
 
 def write_cases_v(path, header, shard):
+    """Boolean cases become one `failing cases` evaluation; `vernac` cases are generated proof
+    obligations (complete Section/Goal/Qed text) that must compile: a failing one fails the file
+    and is then isolated by the per-case re-run."""
     with open(path, "w") as w:
         w.write(header + "\n")
+        for c in shard:
+            if c.get("vernac"):
+                w.write(f"(* obligation {c['id']} *)\n{c['vernac']}\n")
+        boolean = [c for c in shard if not c.get("vernac")]
         w.write("Definition cases : list (N * bool) := [\n")
-        w.write(";\n".join(f" ({c['id']}%N, eqb ({c['lhs']}) ({c['rhs']}))" for c in shard))
+        w.write(";\n".join(f" ({c['id']}%N, eqb ({c['lhs']}) ({c['rhs']}))" for c in boolean))
         w.write("\n].\nEval vm_compute in (failing cases).\n")
 
 
@@ -204,6 +211,8 @@ def run_shard(args):
 
 
 def show_case(work, header, c, tag):
+    if c.get("vernac"):
+        return c.get("rhs", "")
     f = os.path.join(work, f"show_{tag}.v")
     with open(f, "w") as w:
         w.write(header + "\n")
@@ -235,6 +244,9 @@ def coq_check_cases(work, header, cases, timeout):
                 for c, rr in zip(sub, rs):
                     if rr["ok"]:
                         failing += rr["failing"]
+                    elif c.get("vernac"):
+                        failing.append(c["id"])          # the generated obligation is not provable
+                        c["rhs"] = "(obligation does not check) " + rr["log"][-1500:]
                     else:
                         broken.append((c["id"], rr["log"]))
             else:
@@ -384,7 +396,7 @@ def run_property(prop, tier, seed, replay=None):
             log(f"search for a failing input: {'found' if found else 'none found'} ({dtr:.0f}s)")
         payload = {"kind": "broken-obligation", "broken": [{"what": b[0], "detail": b[1]} for b in broken],
                    "theorems": thms,
-                   "disagreeing_cases": [{"case": {k: (byid[i][k] if len(str(byid[i][k])) < 4000 else str(byid[i][k])[:4000] + '...') for k in ("id", "kind", "lhs", "rhs", "input")},
+                   "disagreeing_cases": [{"case": {k: (byid[i].get(k, "") if len(str(byid[i].get(k, ""))) < 4000 else str(byid[i].get(k, ""))[:4000] + '...') for k in ("id", "kind", "lhs", "rhs", "vernac", "input")},
                                           "model_value": shown.get(i)} for i in failing[:5]]}
         if found:
             payload["failing_input"] = found
